@@ -1417,6 +1417,66 @@ pub fn run_c10(tier: Tier) -> i32 {
             }
             sess.quit();
         }
+        // a REJECTED position command after the game (a different game whose move list ends in an
+        // illegal move) is not "the position command": the engine keeps the position it had, and
+        // with it the history that was supplied for it
+        {
+            let root = line.last().unwrap().clone();
+            if root.has_legal_move() && RefSearch::occurrences(&line) < 3 {
+                let mut sess = Session::new(false);
+                sess.line(&position_line(base, &moves));
+                // the rejected command: the colour-flipped start, the first half of the flipped game, then a move from an empty square
+                let other = Pos::from_fen("rnbqkbnr/pppppppp/8/8/8/8/PPPPPPPP/RNBQKBNR w KQkq - 0 1").unwrap();
+                let mut prefix: Vec<String> = Vec::new();
+                let mut q = other.clone();
+                for u in ["b1c3", "b8c6", "c3b1", "c6b8", "g1f3"].iter().take(1 + moves.len() % 5) {
+                    if let Some(m) = q.find_legal_uci(u) {
+                        q = q.make(&m);
+                        prefix.push(u.to_string());
+                    }
+                }
+                prefix.push("e4e5".to_string()); // no piece there: the command must be rejected as a whole
+                sess.line(&position_line(&other, &prefix));
+                for m in shuffle_moves(&root).iter().take(5) {
+                    leak_n.fetch_add(1, Ordering::Relaxed);
+                    // no new position command: the engine still holds base + moves
+                    let out = run_go(&mut sess, &format!("go depth 1 searchmoves {}", m.uci()), Plan::virtual_rate(1000), &no_actions);
+                    let out = {
+                        let mut o = out;
+                        if let Some(i) = o.obs.infos.iter().rev().find(|i| i.score.is_some()) {
+                            o.score = i.score;
+                        }
+                        o
+                    };
+                    let case = |extra: Value| json!({"kind": "history_leak_rejected", "base": base.to_fen(), "history": moves, "rejected_command": position_line(&other, &prefix), "searchmove": m.uci(), "depth": 1, "detail": extra});
+                    if let Some(pr) = &out.problem {
+                        rep.report(format!("no_answer:{}", short(pr)), case(json!({"problem": pr})));
+                        break;
+                    }
+                    let mut after = line.clone();
+                    after.push(root.make(m));
+                    if RefSearch::occurrences(&after) >= 3 {
+                        leak_would_repeat.fetch_add(1, Ordering::Relaxed);
+                    }
+                    let eval = |q: &Pos, l: bool| eval_hook(q, l);
+                    let mut wants = Vec::new();
+                    for c in [contempt, -contempt] {
+                        let mut rs = RefSearch::new(&eval);
+                        rs.history = line[..line.len() - 1].to_vec();
+                        rs.repetition = Some(RepRule { draw, contempt: c });
+                        wants.push(rs.root(&root, 1, Some(&[m.uci()])).1[0].1);
+                    }
+                    let got = match out.score {
+                        Some(Score::Centipawn { score }) => Some(score),
+                        _ => None,
+                    };
+                    if !wants.iter().any(|w| verif::is_checkmate_value(*w)) && got != Some(wants[0]) && got != Some(wants[1]) {
+                        rep.report("history_changed_by_a_rejected_position_command:depth1".to_string(), case(json!({"expected": wants, "actual": score_json(&out.score), "bestmove": out.best})));
+                    }
+                }
+                sess.quit();
+            }
+        }
     });
     fams.push(json!({"family": "position fen <a position of the game just given> without moves, after that game on the same engine (with/without ucinewgame, with/without a search in between): go depth 1 searchmoves m against the reference without history", "histories": leak_jobs.len(), "engine_queries": leak_n.load(Ordering::Relaxed), "queries_that_the_earlier_history_would_have_made_a_third_occurrence": leak_would_repeat.load(Ordering::Relaxed), "secs": t0.elapsed().as_secs_f64()}));
     if leak_would_repeat.load(Ordering::Relaxed) == 0 {
@@ -1829,6 +1889,23 @@ pub fn replay(id: &str, case: &Value) -> i32 {
         ("C10", "game") => {
             let moves: Vec<String> = case["history"].as_array().map(|a| a.iter().map(|v| v.as_str().unwrap_or("").to_string()).collect()).unwrap_or_default();
             c10_game(&rep, &p, depth, 0, Some(&moves));
+        }
+        ("C10", "history_leak_rejected") => {
+            let moves: Vec<String> = case["history"].as_array().map(|a| a.iter().map(|v| v.as_str().unwrap_or("").to_string()).collect()).unwrap_or_default();
+            let sm = case["searchmove"].as_str().unwrap_or("").to_string();
+            let rejected = case["rejected_command"].as_str().unwrap_or("").to_string();
+            let mut sess = Session::new(false);
+            sess.line(&position_line(&p, &moves));
+            sess.line(&rejected);
+            let out = run_go(&mut sess, &format!("go depth 1 searchmoves {}", sm), Plan::virtual_rate(1000), &no_actions);
+            sess.quit();
+            let mut fresh = Session::new(false);
+            let f = search_depth(&mut fresh, &p, &moves, 1, &format!(" searchmoves {}", sm));
+            fresh.quit();
+            println!("after the rejected command: {:?} {:?}; engine that never saw it: {:?} {:?}", out.score, out.best, f.score, f.best);
+            if out.score != f.score {
+                rep.report("history_changed_by_a_rejected_position_command".to_string(), json!({"kind": "history_leak_rejected", "base": p.to_fen(), "history": moves, "rejected_command": rejected, "searchmove": sm}));
+            }
         }
         ("C10", "history_leak") => {
             let moves: Vec<String> = case["history"].as_array().map(|a| a.iter().map(|v| v.as_str().unwrap_or("").to_string()).collect()).unwrap_or_default();
